@@ -2,7 +2,7 @@
    Exact arithmetic (Qc); the time decay enters as any homomorphism of elapsed time
    (decay 0 = 1, decay (a+b) = decay a * decay b), of which 2^(-dt/halflife) is one. *)
 From Coq Require Import List ZArith Bool QArith Qcanon.
-From GL Require Import Lib.Arr Lib.Keyed Model.Dom Model.Ema Proofs.RowGeneric Proofs.EmaClosed Proofs.EmaMask Proofs.NullKeys.
+From GL Require Import Lib.Arr Lib.Keyed Model.Dom Model.Ema Proofs.RowGeneric Proofs.EmaClosed Proofs.EmaMask Proofs.EmaTimedMask Proofs.NullKeys Proofs.GenTie Gen.TablesGen.
 Import ListNotations.
 Open Scope Z_scope.
 
@@ -80,3 +80,13 @@ Proof. vm_compute. reflexivity. Qed.
 (* a decay satisfying the hypotheses of 4 exists *)
 Example C10_decay_exists : exists decay : Z -> Qc, decay 0 = 1%Qc /\ forall a b, decay (a + b) = (decay a * decay b)%Qc.
 Proof. exists (fun _ => 1%Qc). split; [reflexivity|]. intros. ring. Qed.
+
+(* Tie B: the formulas of emas.py the model stands for (beta = 1 - alpha; beta = exp(-log 2 * dt / halflife) with times;
+   alpha = 1 - exp(-log 2 / h) for a halflife counted in rows) are those of the source on this run; the exponential decay
+   satisfies the two hypotheses of the timed theorems, shown for halflife 1 by decay_exp *)
+Theorem C10_formulas_are_the_source's : gen_ema_formulas = ema_formulas.
+Proof. exact tie_ema_formulas. Qed.
+Theorem C10_exponential_decay_is_a_decay : decay_exp 0 = 1%Qc /\ forall a b, decay_exp (a + b) = (decay_exp a * decay_exp b)%Qc.
+Proof. exact (conj decay_exp_zero decay_exp_add). Qed.
+Print Assumptions C10_formulas_are_the_source's.
+Print Assumptions C10_exponential_decay_is_a_decay.
